@@ -31,7 +31,12 @@ def fallHandle (args : List String) : String :=
   | "vec" :: fs =>
     match field fs "op", (field fs "names").bind parseHexList, field fs "arg" with
     | some op, some names, some arg =>
-      let v : MVec := { names := names, consts := [], buildFails := false, children := [], store := [] }
+      let v0 : MVec := { names := names, consts := [], buildFails := false, children := [], store := [] }
+      -- `pre=<list>/<list>/…`: children created (by well-formed lookups) before the call under test
+      let pre : List (List Str) := match field fs "pre" with
+        | some p => (p.splitOn "/").filterMap parseHexList
+        | none => []
+      let v : MVec := pre.foldl (fun v a => (withLabelValues v a).1) v0
       let r1 (r : MVec × Except VErr Nat) : String := match r.2 with | .ok _ => "ok" | .error _ => "err"
       let r2 (r : MVec × Except VErr Unit) : String := match r.2 with | .ok _ => "ok" | .error _ => "err"
       if op == "with" then match parseHexList arg with | some a => r1 (withLabelValues v a) | none => "bad-op"
